@@ -901,9 +901,9 @@ func evalCosmosQuery(q cosmosdb.VerifQuery, recs []rec15) ([]rec15, error) {
 func init() {
 	register(&Prop{
 		ID: "C15", Level: "exploration", Batch: 20, PerCaseTimeout: 120 * time.Second,
-		Rule:  "case i = PRNG(seed,i): vault kind by i mod 6; 3-8 mutations (create with PRNG status/group/submit time, UpdatePlan status change, Delete); after each mutation Exists for every live, deleted and unknown id, List with limits {0,1,n-1,n,n+1}, Search{Running} and 7 PRNG filters over ids (known, deleted, unknown), group ids and 1-3 statuses; results compared as ordered lists with a reference filter; every stream drained behind a 6 s watchdog; for cosmosdb the emitted Cosmos SQL is evaluated by an interpreter of the emitted fragment; distinct by (vault, mutation list)",
+		Rule:  "case i = PRNG(seed,i): vault kind by i mod 6; 3-8 mutations (create with PRNG status/group/submit time, UpdatePlan status change, Delete); after each mutation Exists for every live, deleted and unknown id, List with limits {0,1,n-1,n,n+1}, Search{Running} and 7 PRNG filters over ids (known, deleted, unknown), group ids and 1-3 statuses; results compared as ordered lists with a reference filter; every stream drained behind a 6 s watchdog; for cosmosdb the emitted Cosmos SQL is evaluated by an interpreter of the emitted fragment; distinct by (vault, mutation list); after every 2nd mutation a stream whose caller cancels after k results (or before the call) and keeps draining: closed, prefix delivered, vault still answers; after every 3rd a refused Search (no filter); every 12th case: 2 writers (create / status change / delete of their own plans) racing with 3 queriers (List, Search by status, Exists), every call stamped at the boundary, interval oracle (definitely-there listed once, definitely-gone never, status one the plan could have had during the call, newest first, streams closed), race detector on",
 		Cases: nCases(180, 3000),
-		Run:   c15Run,
+		Run:   everyNth(12, c15Concurrent, c15Run),
 		RaceAttr: func(rb ev.RaceBlock) bool {
 			return rb.HasFunc("workflow/storage/") && (rb.HasFunc("List") || rb.HasFunc("Search") || rb.HasFunc("Exists"))
 		},
